@@ -204,13 +204,35 @@ func (h *HookSource) SubscriptionOnStart(hc resolve.StartupHookContext, input []
 type Reporter struct {
 	SubInc, SubDec, TrigInc, TrigDec, Updates atomic.Int64
 	clock                                     *Clock
+	mu                                        sync.Mutex
+	incs                                      []TrigInc
 }
 
 func (r *Reporter) SubscriptionUpdateSent()        { r.Updates.Add(1) }
 func (r *Reporter) SubscriptionCountInc(count int) { r.clock.Tick(); r.SubInc.Add(int64(count)) }
 func (r *Reporter) SubscriptionCountDec(count int) { r.clock.Tick(); r.SubDec.Add(int64(count)) }
-func (r *Reporter) TriggerCountInc(count int)      { r.clock.Tick(); r.TrigInc.Add(int64(count)) }
-func (r *Reporter) TriggerCountDec(count int)      { r.clock.Tick(); r.TrigDec.Add(int64(count)) }
+func (r *Reporter) TriggerCountInc(count int) {
+	ts := r.clock.Tick()
+	r.TrigInc.Add(int64(count))
+	// the increment is reported by the start-up goroutine of the trigger: remember which one
+	g := goid()
+	r.mu.Lock()
+	r.incs = append(r.incs, TrigInc{Gid: g, Ts: ts})
+	r.mu.Unlock()
+}
+
+// TrigInc is one TriggerCountInc call.
+type TrigInc struct {
+	Gid int64
+	Ts  int64
+}
+
+func (r *Reporter) Incs() []TrigInc {
+	r.mu.Lock()
+	defer r.mu.Unlock()
+	return append([]TrigInc(nil), r.incs...)
+}
+func (r *Reporter) TriggerCountDec(count int) { r.clock.Tick(); r.TrigDec.Add(int64(count)) }
 
 // errWriter is the rig's resolve.AsyncErrorWriter.
 type errWriter struct{}
